@@ -14,10 +14,10 @@ def sumSizes (as : List Asset) : Nat := (as.map (·.size)).sum
 /-! ### size_t arithmetic without wrap-around -/
 
 theorem wadd_eq {a b : Nat} (h : a + b < W) : wadd a b = a + b := by
-  unfold wadd; exact Nat.mod_eq_of_lt h
+  unfold wadd; simp [h]
 
-theorem wsub_eq {a b : Nat} (hb : b ≤ a) (ha : a < W) : wsub a b = a - b := by
-  unfold wsub W at *; omega
+theorem wsub_eq {a b : Nat} (hb : b ≤ a) : wsub a b = a - b := by
+  unfold wsub; simp [hb]
 
 /-! ### `lookup_` as an association list -/
 
@@ -442,7 +442,7 @@ theorem base_deleteCore {c : Cache} (hb : Base c) {a : Asset} (ha : find c.asset
   have hmem := (find_some ha).1
   have hle : a.size ≤ c.size := by rw [hb.size_eq]; exact size_le_sumSizes hmem
   have hlt := hb.size_lt
-  have hsub : wsub c.size a.size = c.size - a.size := wsub_eq hle (by have := HALF_lt_W; omega)
+  have hsub : wsub c.size a.size = c.size - a.size := wsub_eq hle
   have hsum := sumSizes_aerase hb.ids_nodup ha
   refine ⟨hb.noub, ?_, ?_, hb.cap_lt, ?_, ?_, ?_, ?_⟩
   · show wsub c.size a.size = sumSizes (aerase c.assets a.id)
@@ -463,7 +463,7 @@ theorem deleteCore_size {c : Cache} (hb : Base c) {a : Asset} (ha : find c.asset
   have hmem := (find_some ha).1
   have hle : a.size ≤ c.size := by rw [hb.size_eq]; exact size_le_sumSizes hmem
   have hlt := hb.size_lt
-  have hsub : wsub c.size a.size = c.size - a.size := wsub_eq hle (by have := HALF_lt_W; omega)
+  have hsub : wsub c.size a.size = c.size - a.size := wsub_eq hle
   show wsub c.size a.size + a.size = c.size
   rw [hsub]; omega
 
@@ -489,5 +489,1073 @@ theorem cons_deleteCore_none {c : Cache} (hc : Consistent c) {a : Asset} (ha : f
 theorem wf_deleteCore_none {c : Cache} (h : Wf c) {a : Asset} (ha : find c.assets a.id = some a) :
     Wf (deleteCore c a none) :=
   ⟨base_deleteCore h.base ha none, cons_deleteCore_none h.cons ha⟩
+
+/-! ### Insert -/
+
+theorem inv_insert {c : Cache} (h : Inv c) (m id ts d sz : Nat) (hsz : sz < HALF) :
+    Inv (insert c m id ts d sz).1 := by
+  have hb := h.wf.base
+  have hc := h.wf.cons
+  have hHW := HALF_lt_W
+  have hsl := hb.size_lt
+  unfold insert
+  cases hf : find c.assets id with
+  | none =>
+    simp only []
+    have hadd : wadd c.size sz = c.size + sz := wadd_eq (by omega)
+    by_cases hcap : wadd c.size sz > c.capacity
+    · simp only [hcap, if_true]; exact h
+    · simp only [hcap, if_false]
+      rw [hadd] at hcap ⊢
+      have hcl := hb.cap_lt
+      have hnone := find_none.mp hf
+      refine ⟨⟨⟨hb.noub, ?_, ?_, hb.cap_lt, ?_, ?_, ?_, ?_⟩, ?_⟩, ?_⟩
+      · show c.size + sz = sumSizes (c.assets ++ [_])
+        rw [sumSizes_append_single, hb.size_eq]
+      · show c.size + sz < HALF
+        omega
+      · show (List.map (fun (x : Asset) => x.id) (c.assets ++ [_])).Nodup
+        rw [List.map_append]
+        refine List.nodup_append.mpr ⟨hb.ids_nodup, by simp, ?_⟩
+        intro x hx y hy
+        simp at hy; subst hy
+        obtain ⟨a, ha, rfl⟩ := List.mem_map.mp hx
+        exact hnone a ha
+      · show (List.map (fun (x : Asset) => x.insertNum) (c.assets ++ [_])).Nodup
+        rw [List.map_append]
+        refine List.nodup_append.mpr ⟨hb.nums_nodup, by simp, ?_⟩
+        intro x hx y hy
+        simp at hy; subst hy
+        obtain ⟨a, ha, rfl⟩ := List.mem_map.mp hx
+        exact Nat.ne_of_lt (hb.nums_lt a ha)
+      · intro b hbm
+        show b.insertNum < c.insertNum + 1
+        rcases List.mem_append.mp hbm with hbm | hbm
+        · have := hb.nums_lt b hbm; omega
+        · simp at hbm; subst hbm; simp
+      · intro m'
+        show (msGet (msInsert c.models m id) m').Nodup
+        rw [msGet_msInsert]
+        split
+        · exact nodup_setInsert (hb.sets_nodup m)
+        · exact hb.sets_nodup m'
+      · intro m' id'
+        show id' ∈ msGet (msInsert c.models m id) m' ↔ ∃ b, find (c.assets ++ [_]) id' = some b ∧ m' ∈ b.refs
+        rw [msGet_msInsert, find_append_single]
+        have hcm := hc m' id'
+        by_cases hid : id' = id
+        · subst hid
+          rw [hf] at hcm ⊢
+          have hno : id' ∉ msGet c.models m' := by
+            intro hmem; obtain ⟨a, ha, _⟩ := hcm.mp hmem; cases ha
+          by_cases hm : m' = m
+          · subst hm; simp [mem_setInsert]
+          · simp [hm, hno]
+        · have hid' : ¬ id = id' := fun e => hid e.symm
+          by_cases hm : m' = m
+          · subst hm
+            cases hf' : find c.assets id' with
+            | none => rw [hf'] at hcm; simp [mem_setInsert, hid, hid', hcm]
+            | some x => rw [hf'] at hcm; simp [mem_setInsert, hid, hcm]
+          · cases hf' : find c.assets id' with
+            | none => rw [hf'] at hcm; simp [hm, hid', hcm]
+            | some x => rw [hf'] at hcm; simp [hm, hcm]
+      · show c.size + sz ≤ c.capacity
+        omega
+  | some a =>
+    simp only []
+    have hmem := (find_some hf).1
+    have haid := (find_some hf).2
+    have hle : a.size ≤ c.size := by rw [hb.size_eq]; exact size_le_sumSizes hmem
+    have hsub : wsub c.size a.size = c.size - a.size := wsub_eq hle
+    have hadd : wadd (wsub c.size a.size) sz = c.size - a.size + sz := by
+      rw [hsub]; exact wadd_eq (by omega)
+    by_cases hcap : wadd (wsub c.size a.size) sz > c.capacity
+    · simp only [hcap, if_true]; exact h
+    · simp only [hcap, if_false]
+      rw [hadd] at hcap
+      -- the cross references after `models_[m].insert(asset); asset->AddReference(m)`
+      have hcons : ∀ (f : Asset → Asset), (∀ x, (f x).id = x.id) → (∀ x, (f x).refs = setInsert m x.refs) →
+          ∀ m' id', id' ∈ msGet (msInsert c.models m id) m' ↔
+            ∃ b, find (amap c.assets id f) id' = some b ∧ m' ∈ b.refs := by
+        intro f hf1 hf2 m' id'
+        rw [msGet_msInsert, find_amap _ _ _ _ hf1]
+        have hcm := hc m' id'
+        by_cases hid : id' = id
+        · subst hid
+          rw [hf] at hcm ⊢
+          by_cases hm : m' = m
+          · subst hm; simp [mem_setInsert, hf2]
+          · simp [hm, hf2, mem_setInsert, hcm]
+        · by_cases hm : m' = m
+          · subst hm; simp [mem_setInsert, hid, hcm]
+          · simp [hm, hid, hcm]
+      have hsets : ∀ m', (msGet (msInsert c.models m id) m').Nodup := by
+        intro m'
+        rw [msGet_msInsert]
+        split
+        · exact nodup_setInsert (hb.sets_nodup m)
+        · exact hb.sets_nodup m'
+      by_cases hts : a.ts = ts
+      · simp only [hts, if_true]
+        have hb' := base_amap hb id (fun x => { x with refs := setInsert m x.refs })
+          (fun _ => rfl) (fun _ => rfl) (fun _ => rfl)
+        exact ⟨⟨⟨hb'.noub, hb'.size_eq, hb'.size_lt, hb'.cap_lt, hb'.ids_nodup, hb'.nums_nodup, hb'.nums_lt, hsets⟩,
+          hcons _ (fun _ => rfl) (fun _ => rfl)⟩, h.size_le⟩
+      · simp only [hts, if_false]
+        rw [hadd]
+        have hsum := sumSizes_amap hb.ids_nodup
+          (fun x => { x with refs := setInsert m x.refs, ts := ts, size := sz, data := d }) hf
+        simp only [] at hsum
+        refine ⟨⟨⟨hb.noub, ?_, ?_, hb.cap_lt, ?_, ?_, ?_, hsets⟩, hcons _ (fun _ => rfl) (fun _ => rfl)⟩, ?_⟩
+        · show c.size - a.size + sz = sumSizes (amap c.assets id _)
+          have := hb.size_eq; omega
+        · show c.size - a.size + sz < HALF
+          have := hb.cap_lt; omega
+        · dsimp only
+          rw [ids_amap]
+          · exact hb.ids_nodup
+          · intro _; rfl
+        · dsimp only
+          rw [nums_amap]
+          · exact hb.nums_nodup
+          · intro _; rfl
+        · intro b hbm
+          obtain ⟨x, hx, rfl⟩ := mem_amap.mp hbm
+          have := hb.nums_lt x hx
+          by_cases hxi : x.id = id <;> simp [hxi] <;> exact this
+        · show c.size - a.size + sz ≤ c.capacity
+          omega
+
+/-! ### PopulateData, DeleteAsset, Reset() -/
+
+theorem cons_amap_refs {c : Cache} (hc : Consistent c) (id : Nat) (f : Asset → Asset)
+    (h1 : ∀ a, (f a).id = a.id) (h2 : ∀ a, (f a).refs = a.refs) :
+    Consistent { c with assets := amap c.assets id f } := by
+  intro m id'
+  show id' ∈ msGet c.models m ↔ ∃ b, find (amap c.assets id f) id' = some b ∧ m ∈ b.refs
+  rw [find_amap _ _ _ _ h1, hc m id']
+  by_cases hid : id' = id
+  · subst hid
+    cases hf : find c.assets id' <;> simp [h2]
+  · simp [hid]
+
+theorem inv_populate {c : Cache} (h : Inv c) (id : Nat) (rts : Option Nat) : Inv (populate c id rts).1 := by
+  unfold populate
+  cases hf : find c.assets id with
+  | none => exact h
+  | some a =>
+    simp only []
+    by_cases hm : isModified rts a.ts = true
+    · simp only [hm, if_true]; exact h
+    · simp only [hm]
+      exact ⟨⟨base_amap h.wf.base id _ (fun _ => rfl) (fun _ => rfl) (fun _ => rfl),
+        cons_amap_refs h.wf.cons id _ (fun _ => rfl) (fun _ => rfl)⟩, h.size_le⟩
+
+theorem inv_deleteAsset {c : Cache} (h : Inv c) (id : Nat) : Inv (deleteAsset c id) := by
+  unfold deleteAsset
+  cases hf : find c.assets id with
+  | none => exact h
+  | some a =>
+    simp only []
+    have ha : find c.assets a.id = some a := by rw [(find_some hf).2]; exact hf
+    refine ⟨wf_deleteCore_none h.wf ha, ?_⟩
+    have := deleteCore_size h.wf.base ha none
+    have := h.size_le
+    show (deleteCore c a none).size ≤ c.capacity
+    omega
+
+theorem inv_resetAll {c : Cache} (h : Inv c) : Inv (resetAll c) := by
+  have hb := h.wf.base
+  refine ⟨⟨⟨hb.noub, rfl, ?_, hb.cap_lt, by simp [resetAll], by simp [resetAll], by simp [resetAll],
+    by intro m; simp [resetAll, msGet_nil]⟩, ?_⟩, by simp [resetAll]⟩
+  · show 0 < HALF
+    unfold HALF; omega
+  · intro m id
+    simp [resetAll, msGet_nil, find_nil]
+
+/-! ### Trim / SetCapacity -/
+
+theorem minAsset_none {l : List Asset} : minAsset l = none ↔ l = [] := by
+  cases l with
+  | nil => simp [minAsset]
+  | cons a rest =>
+    simp only [minAsset]
+    cases minAsset rest with
+    | none => simp
+    | some b => by_cases hk : keyLt b a = true <;> simp [hk]
+
+theorem minAsset_mem {l : List Asset} {a : Asset} (h : minAsset l = some a) : a ∈ l := by
+  induction l generalizing a with
+  | nil => simp [minAsset] at h
+  | cons x rest ih =>
+    simp only [minAsset] at h
+    cases hr : minAsset rest with
+    | none => rw [hr] at h; simp at h; subst h; simp
+    | some b =>
+      rw [hr] at h
+      by_cases hk : keyLt b x = true
+      · simp [hk] at h; subst h; exact List.mem_cons_of_mem _ (ih hr)
+      · simp [hk] at h; subst h; simp
+
+theorem keyLt_iff (a b : Asset) :
+    keyLt a b = true ↔ a.access < b.access ∨ (a.access = b.access ∧ a.insertNum < b.insertNum) := by
+  unfold keyLt
+  by_cases e : a.access = b.access
+  · simp [e]
+  · simp [e]
+
+theorem keyLt_trans {a b c : Asset} (h1 : keyLt a b = true) (h2 : keyLt b c = true) : keyLt a c = true := by
+  rw [keyLt_iff] at *; omega
+
+theorem keyLt_of_not {a b : Asset} (h : ¬ keyLt b a = true) (hne : a.insertNum ≠ b.insertNum) : keyLt a b = true := by
+  rw [keyLt_iff] at *; omega
+
+theorem keyLt_irrefl (a : Asset) : ¬ keyLt a a = true := by
+  rw [keyLt_iff]; omega
+
+/-- `*entries_.begin()` is a lower bound of the `(access, insertNum)` order. -/
+theorem minAsset_le {l : List Asset} {a : Asset} (h : minAsset l = some a) : ∀ b ∈ l, ¬ keyLt b a = true := by
+  induction l generalizing a with
+  | nil => simp
+  | cons x rest ih =>
+    simp only [minAsset] at h
+    intro b hb
+    cases hr : minAsset rest with
+    | none =>
+      rw [hr] at h; simp at h; subst h
+      have : rest = [] := minAsset_none.mp hr
+      subst this; simp at hb; subst hb
+      exact keyLt_irrefl _
+    | some m =>
+      rw [hr] at h
+      by_cases hk : keyLt m x = true
+      · simp [hk] at h; subst h
+        rcases List.mem_cons.mp hb with rfl | hb'
+        · rw [keyLt_iff] at hk ⊢; omega
+        · exact ih hr b hb'
+      · simp [hk] at h; subst h
+        rcases List.mem_cons.mp hb with rfl | hb'
+        · exact keyLt_irrefl _
+        · have := ih hr b hb'
+          rw [keyLt_iff] at hk this ⊢; omega
+
+theorem trimN_inv : ∀ (fuel : Nat) (c : Cache), Wf c → c.assets.length ≤ fuel → Inv (trimN fuel c) := by
+  intro fuel
+  induction fuel with
+  | zero =>
+    intro c h hlen
+    have he : c.assets = [] := List.eq_nil_of_length_eq_zero (by omega)
+    have hs : c.size = 0 := by rw [h.base.size_eq, he]; rfl
+    have : ¬ c.size > c.capacity := by omega
+    simp only [trimN, this, if_false]
+    exact ⟨h, by omega⟩
+  | succ n ih =>
+    intro c h hlen
+    simp only [trimN]
+    by_cases hgt : c.size > c.capacity
+    · simp only [hgt, if_true]
+      cases hmin : minAsset c.assets with
+      | none =>
+        have he := minAsset_none.mp hmin
+        have hs : c.size = 0 := by rw [h.base.size_eq, he]; rfl
+        omega
+      | some a =>
+        simp only []
+        have ha : find c.assets a.id = some a := find_mem h.base.ids_nodup (minAsset_mem hmin)
+        apply ih _ (wf_deleteCore_none h ha)
+        have := length_aerase_lt ha
+        show (aerase c.assets a.id).length ≤ n
+        omega
+    · simp only [hgt, if_false]
+      exact ⟨h, by omega⟩
+
+theorem inv_setCapacity {c : Cache} (h : Inv c) (n : Nat) (hn : n < HALF) : Inv (setCapacity c n) := by
+  unfold setCapacity trim
+  apply trimN_inv _ _ _ (Nat.le_refl _)
+  have hb := h.wf.base
+  exact ⟨⟨hb.noub, hb.size_eq, hb.size_lt, hn, hb.ids_nodup, hb.nums_nodup, hb.nums_lt, hb.sets_nodup⟩, h.wf.cons⟩
+
+/-! ### RemoveModel / Reset(model): loop invariant -/
+
+/-- invariant of the loops over `models_[m]`; `pending` = elements not yet visited.  For the model
+    `m` itself the table entry is not touched by the loop (`Delete(asset, skip = m)`), so consistency
+    for `m` is stated against `pending`. -/
+structure Loop (m : Nat) (pending : List Nat) (c : Cache) : Prop where
+  base : Base c
+  size_le : c.size ≤ c.capacity
+  cons_other : ∀ m' id, m' ≠ m → (id ∈ msGet c.models m' ↔ ∃ a, find c.assets id = some a ∧ m' ∈ a.refs)
+  cons_m1 : ∀ id a, find c.assets id = some a → m ∈ a.refs → id ∈ pending
+  cons_m2 : ∀ id ∈ pending, ∃ a, find c.assets id = some a ∧ m ∈ a.refs
+  nodup : pending.Nodup
+
+theorem loop_init {c : Cache} (h : Inv c) (m : Nat) : Loop m (msGet c.models m) c := by
+  refine ⟨h.wf.base, h.size_le, fun m' id _ => h.wf.cons m' id, ?_, ?_, h.wf.base.sets_nodup m⟩
+  · intro id a hf hm; exact (h.wf.cons m id).mpr ⟨a, hf, hm⟩
+  · intro id hid; exact (h.wf.cons m id).mp hid
+
+theorem loop_final {c : Cache} {m : Nat} (h : Loop m [] c) : Inv { c with models := msDrop c.models m } := by
+  have hb := h.base
+  refine ⟨⟨⟨hb.noub, hb.size_eq, hb.size_lt, hb.cap_lt, hb.ids_nodup, hb.nums_nodup, hb.nums_lt, ?_⟩, ?_⟩, h.size_le⟩
+  · intro m'
+    show (msGet (msDrop c.models m) m').Nodup
+    rw [msGet_msDrop]
+    split
+    · exact List.nodup_nil
+    · exact hb.sets_nodup m'
+  · intro m' id
+    show id ∈ msGet (msDrop c.models m) m' ↔ ∃ a, find c.assets id = some a ∧ m' ∈ a.refs
+    rw [msGet_msDrop]
+    by_cases hm : m' = m
+    · subst hm
+      simp only [if_true, List.not_mem_nil, false_iff]
+      rintro ⟨a, hf, hma⟩
+      exact absurd (h.cons_m1 id a hf hma) (by simp)
+    · simp only [hm, if_false]
+      exact h.cons_other m' id hm
+
+theorem loop_foldl {m : Nat} (stepf : Cache → Nat → Cache)
+    (hstep : ∀ id rest c, Loop m (id :: rest) c → Loop m rest (stepf c id)) :
+    ∀ (ids : List Nat) (c : Cache), Loop m ids c → Loop m [] (ids.foldl stepf c) := by
+  intro ids
+  induction ids with
+  | nil => intro c h; exact h
+  | cons id rest ih => intro c h; exact ih _ (hstep id rest c h)
+
+theorem removeRefStep_eq {m : Nat} {c : Cache} {id : Nat} {a : Asset} (hf : find c.assets id = some a) :
+    removeRefStep m c id =
+      if (setErase m a.refs).isEmpty then
+        deleteCore { c with assets := amap c.assets id (fun x => { x with refs := setErase m x.refs }) }
+          { a with refs := setErase m a.refs } (some m)
+      else { c with assets := amap c.assets id (fun x => { x with refs := setErase m x.refs }) } := by
+  unfold removeRefStep
+  rw [hf]
+
+theorem loop_removeRefStep {m : Nat} (id : Nat) (rest : List Nat) (c : Cache) (h : Loop m (id :: rest) c) :
+    Loop m rest (removeRefStep m c id) := by
+  obtain ⟨a, hf, hma⟩ := h.cons_m2 id (by simp)
+  have haid : a.id = id := (find_some hf).2
+  have hnd := List.nodup_cons.mp h.nodup
+  rw [removeRefStep_eq hf]
+  have hb' := base_amap h.base id (fun x => { x with refs := setErase m x.refs })
+    (fun _ => rfl) (fun _ => rfl) (fun _ => rfl)
+  have hfind' : ∀ id', find (amap c.assets id (fun x => { x with refs := setErase m x.refs })) id' =
+      if id' = id then some { a with refs := setErase m a.refs } else find c.assets id' := by
+    intro id'
+    rw [find_amap]
+    · by_cases hid : id' = id
+      · simp [hid, hf]
+      · simp [hid]
+    · intro _; rfl
+  by_cases hemp : (setErase m a.refs).isEmpty = true
+  · simp only [hemp, if_true]
+    have hnil : setErase m a.refs = [] := List.isEmpty_iff.mp hemp
+    have ha' : find (amap c.assets id (fun x => { x with refs := setErase m x.refs }))
+        ({ a with refs := setErase m a.refs } : Asset).id = some { a with refs := setErase m a.refs } := by
+      rw [hfind']; simp [haid]
+    have hbd := base_deleteCore hb' ha' (some m)
+    have hsz := deleteCore_size hb' ha' (some m)
+    have hassets : (deleteCore { c with assets := amap c.assets id (fun x => { x with refs := setErase m x.refs }) }
+        { a with refs := setErase m a.refs } (some m)).assets = aerase c.assets id := by
+      show aerase (amap c.assets id _) a.id = aerase c.assets id
+      rw [haid, aerase_amap]
+      intro _; rfl
+    have hmodels : ∀ m', msGet (deleteCore { c with assets := amap c.assets id (fun x => { x with refs := setErase m x.refs }) }
+        { a with refs := setErase m a.refs } (some m)).models m' = msGet c.models m' := by
+      intro m'
+      rw [deleteCore_models, msGet_eraseRefs]
+      simp [hnil]
+    refine ⟨hbd, ?_, ?_, ?_, ?_, hnd.2⟩
+    · have := h.size_le
+      have e : ({ c with assets := amap c.assets id (fun x => { x with refs := setErase m x.refs }) } : Cache).size = c.size := rfl
+      have e2 : (deleteCore { c with assets := amap c.assets id (fun x => { x with refs := setErase m x.refs }) }
+        { a with refs := setErase m a.refs } (some m)).capacity = c.capacity := rfl
+      rw [e] at hsz; rw [e2]; omega
+    · intro m' id' hm'
+      rw [hmodels, hassets, find_aerase]
+      by_cases hid : id' = id
+      · subst hid
+        simp only [if_true]
+        constructor
+        · intro hmem
+          obtain ⟨a0, ha0, hm0⟩ := (h.cons_other m' id' hm').mp hmem
+          rw [hf] at ha0; cases ha0
+          have : m' ∈ setErase m a.refs := mem_setErase.mpr ⟨hm0, hm'⟩
+          rw [hnil] at this; simp at this
+        · rintro ⟨b, hb0, _⟩; cases hb0
+      · simp only [hid, if_false]
+        exact h.cons_other m' id' hm'
+    · intro id' b hfb hmb
+      rw [hassets, find_aerase] at hfb
+      by_cases hid : id' = id
+      · simp [hid] at hfb
+      · simp only [hid, if_false] at hfb
+        have := h.cons_m1 id' b hfb hmb
+        simpa [hid] using this
+    · intro id' hid'
+      have hne : id' ≠ id := fun e => hnd.1 (e ▸ hid')
+      obtain ⟨b, hfb, hmb⟩ := h.cons_m2 id' (List.mem_cons_of_mem _ hid')
+      exact ⟨b, by rw [hassets, find_aerase]; simp [hne, hfb], hmb⟩
+  · simp only [hemp]
+    refine ⟨hb', h.size_le, ?_, ?_, ?_, hnd.2⟩
+    · intro m' id' hm'
+      show id' ∈ msGet c.models m' ↔ ∃ b, find (amap c.assets id _) id' = some b ∧ m' ∈ b.refs
+      rw [hfind', h.cons_other m' id' hm']
+      by_cases hid : id' = id
+      · subst hid
+        simp [hf, mem_setErase, hm']
+      · simp [hid]
+    · intro id' b hfb hmb
+      have hfb' : find (amap c.assets id (fun x => { x with refs := setErase m x.refs })) id' = some b := hfb
+      rw [hfind'] at hfb'
+      by_cases hid : id' = id
+      · simp [hid] at hfb'; subst hfb'
+        simp [mem_setErase] at hmb
+      · simp only [hid, if_false] at hfb'
+        have := h.cons_m1 id' b hfb' hmb
+        simpa [hid] using this
+    · intro id' hid'
+      have hne : id' ≠ id := fun e => hnd.1 (e ▸ hid')
+      obtain ⟨b, hfb, hmb⟩ := h.cons_m2 id' (List.mem_cons_of_mem _ hid')
+      refine ⟨b, ?_, hmb⟩
+      show find (amap c.assets id _) id' = some b
+      rw [hfind']; simp [hne, hfb]
+
+theorem inv_removeModel {c : Cache} (h : Inv c) (m : Nat) : Inv (removeModel c m) := by
+  unfold removeModel
+  exact loop_final (loop_foldl _ loop_removeRefStep _ _ (loop_init h m))
+
+theorem loop_resetStep {m : Nat} (id : Nat) (rest : List Nat) (c : Cache) (h : Loop m (id :: rest) c) :
+    Loop m rest (resetStep m c id) := by
+  obtain ⟨a, hf, hma⟩ := h.cons_m2 id (by simp)
+  have haid : a.id = id := (find_some hf).2
+  have hnd := List.nodup_cons.mp h.nodup
+  have ha : find c.assets a.id = some a := by rw [haid]; exact hf
+  have hstep : resetStep m c id = deleteCore c a (some m) := by unfold resetStep; rw [hf]
+  rw [hstep]
+  have hsz := deleteCore_size h.base ha (some m)
+  have hassets : (deleteCore c a (some m)).assets = aerase c.assets id := by
+    show aerase c.assets a.id = _; rw [haid]
+  refine ⟨base_deleteCore h.base ha (some m), ?_, ?_, ?_, ?_, hnd.2⟩
+  · have := h.size_le
+    have e2 : (deleteCore c a (some m)).capacity = c.capacity := rfl
+    rw [e2]; omega
+  · intro m' id' hm'
+    rw [deleteCore_models, msGet_eraseRefs, hassets, find_aerase]
+    have hsk : some m' ≠ some m := by simpa using hm'
+    by_cases hid : id' = id
+    · subst hid
+      simp only [if_true]
+      constructor
+      · intro hmem
+        by_cases hr : m' ∈ a.refs
+        · simp [hr, hsk, mem_setErase, haid] at hmem
+        · simp only [hr, false_and, if_false] at hmem
+          obtain ⟨a0, ha0, hm0⟩ := (h.cons_other m' id' hm').mp hmem
+          rw [hf] at ha0; cases ha0
+          exact absurd hm0 hr
+      · rintro ⟨b, hb0, _⟩; cases hb0
+    · simp only [hid, if_false]
+      rw [← h.cons_other m' id' hm']
+      by_cases hr : m' ∈ a.refs
+      · simp [hr, hsk, mem_setErase, haid, hid]
+      · simp [hr]
+  · intro id' b hfb hmb
+    rw [hassets, find_aerase] at hfb
+    by_cases hid : id' = id
+    · simp [hid] at hfb
+    · simp only [hid, if_false] at hfb
+      have := h.cons_m1 id' b hfb hmb
+      simpa [hid] using this
+  · intro id' hid'
+    have hne : id' ≠ id := fun e => hnd.1 (e ▸ hid')
+    obtain ⟨b, hfb, hmb⟩ := h.cons_m2 id' (List.mem_cons_of_mem _ hid')
+    exact ⟨b, by rw [hassets, find_aerase]; simp [hne, hfb], hmb⟩
+
+theorem inv_resetModel {c : Cache} (h : Inv c) (m : Nat) : Inv (resetModel c m) := by
+  unfold resetModel
+  exact loop_final (loop_foldl _ loop_resetStep _ _ (loop_init h m))
+
+/-! ### every operation, every history -/
+
+/-- precondition on an operation: byte counts and capacities stay below 2^63 (no `size_t` wrap). -/
+def OpOk : Op → Prop
+  | .insert _ _ _ _ sz => sz < HALF
+  | .setCapacity n => n < HALF
+  | _ => True
+
+theorem inv_empty' {cap : Nat} (h : cap < HALF) : Inv (empty cap) := by
+  refine ⟨⟨⟨rfl, rfl, ?_, h, by simp [empty], by simp [empty], by simp [empty], by intro m; simp [empty, msGet_nil]⟩, ?_⟩,
+    by simp [empty]⟩
+  · show 0 < HALF
+    unfold HALF; omega
+  · intro m id; simp [empty, msGet_nil, find_nil]
+
+theorem inv_step' {c : Cache} (h : Inv c) (op : Op) (hop : OpOk op) : Inv (step c op).1 := by
+  cases op with
+  | insert m id ts d sz => exact inv_insert h m id ts d sz hop
+  | populate id rts => exact inv_populate h id rts
+  | hasAsset id => exact h
+  | deleteAsset id => exact inv_deleteAsset h id
+  | removeModel m => exact inv_removeModel h m
+  | resetModel m => exact inv_resetModel h m
+  | resetAll => exact inv_resetAll h
+  | setCapacity n => exact inv_setCapacity h n hop
+
+theorem inv_run' : ∀ (ops : List Op) (c : Cache), Inv c → (∀ op ∈ ops, OpOk op) → Inv (run c ops) := by
+  intro ops
+  induction ops with
+  | nil => intro c h _; exact h
+  | cons op rest ih =>
+    intro c h hok
+    show Inv (run (step c op).1 rest)
+    exact ih _ (inv_step' h op (hok op (by simp))) (fun o ho => hok o (List.mem_cons_of_mem _ ho))
+
+/-! ### lookups return the most recently stored data -/
+
+/-- no operation other than a storing insert creates or alters the `(timestamp, data)` of an asset. -/
+def Keeps (c c' : Cache) : Prop :=
+  ∀ id a', find c'.assets id = some a' → ∃ a, find c.assets id = some a ∧ a.ts = a'.ts ∧ a.data = a'.data
+
+theorem keeps_refl (c : Cache) : Keeps c c := fun _ a' h => ⟨a', h, rfl, rfl⟩
+
+theorem keeps_trans {c1 c2 c3 : Cache} (h12 : Keeps c1 c2) (h23 : Keeps c2 c3) : Keeps c1 c3 := by
+  intro id a3 h3
+  obtain ⟨a2, h2, e1, e2⟩ := h23 id a3 h3
+  obtain ⟨a1, h1, e3, e4⟩ := h12 id a2 h2
+  exact ⟨a1, h1, e3.trans e1, e4.trans e2⟩
+
+theorem keeps_of_assets_eq {c c' : Cache} (h : c'.assets = c.assets) : Keeps c c' := by
+  intro id a' hf; rw [h] at hf; exact ⟨a', hf, rfl, rfl⟩
+
+theorem keeps_amap (c c' : Cache) (id : Nat) (f : Asset → Asset) (h : c'.assets = amap c.assets id f)
+    (h1 : ∀ a, (f a).id = a.id) (h2 : ∀ a, (f a).ts = a.ts) (h3 : ∀ a, (f a).data = a.data) : Keeps c c' := by
+  intro id' a' hf
+  rw [h, find_amap _ _ _ _ h1] at hf
+  by_cases hid : id' = id
+  · subst hid
+    simp only [if_true] at hf
+    cases hfa : find c.assets id' with
+    | none => rw [hfa] at hf; simp at hf
+    | some a => rw [hfa] at hf; simp at hf; subst hf; exact ⟨a, rfl, (h2 a).symm, (h3 a).symm⟩
+  · simp only [hid, if_false] at hf
+    exact ⟨a', hf, rfl, rfl⟩
+
+theorem keeps_deleteCore (c : Cache) (a : Asset) (skip : Option Nat) : Keeps c (deleteCore c a skip) := by
+  intro id a' hf
+  have hf' : find (aerase c.assets a.id) id = some a' := hf
+  rw [find_aerase] at hf'
+  by_cases hid : id = a.id
+  · simp [hid] at hf'
+  · simp only [hid, if_false] at hf'
+    exact ⟨a', hf', rfl, rfl⟩
+
+theorem keeps_foldl (stepf : Cache → Nat → Cache) (hs : ∀ c x, Keeps c (stepf c x)) :
+    ∀ (l : List Nat) (c : Cache), Keeps c (l.foldl stepf c) := by
+  intro l
+  induction l with
+  | nil => intro c; exact keeps_refl c
+  | cons x xs ih => intro c; exact keeps_trans (hs c x) (ih _)
+
+theorem keeps_trimN : ∀ (fuel : Nat) (c : Cache), Keeps c (trimN fuel c) := by
+  intro fuel
+  induction fuel with
+  | zero =>
+    intro c; simp only [trimN]
+    split
+    · exact keeps_of_assets_eq rfl
+    · exact keeps_refl c
+  | succ n ih =>
+    intro c; simp only [trimN]
+    split
+    · cases minAsset c.assets with
+      | none => exact keeps_of_assets_eq rfl
+      | some a => exact keeps_trans (keeps_deleteCore c a none) (ih _)
+    · exact keeps_refl c
+
+theorem keeps_removeRefStep (m : Nat) (c : Cache) (id : Nat) : Keeps c (removeRefStep m c id) := by
+  cases hf : find c.assets id with
+  | none =>
+    have : removeRefStep m c id = { c with ub := true } := by unfold removeRefStep; rw [hf]
+    rw [this]; exact keeps_of_assets_eq rfl
+  | some a =>
+    rw [removeRefStep_eq hf]
+    have h1 : Keeps c { c with assets := amap c.assets id (fun x => { x with refs := setErase m x.refs }) } :=
+      keeps_amap c _ id _ rfl (fun _ => rfl) (fun _ => rfl) (fun _ => rfl)
+    split
+    · exact keeps_trans h1 (keeps_deleteCore _ _ _)
+    · exact h1
+
+theorem keeps_resetStep (m : Nat) (c : Cache) (id : Nat) : Keeps c (resetStep m c id) := by
+  unfold resetStep
+  cases find c.assets id with
+  | none => exact keeps_of_assets_eq rfl
+  | some a => exact keeps_deleteCore c a (some m)
+
+/-- the asset is absent or cached with a timestamp different from `ts`. -/
+def isNewVersion (c : Cache) (id ts : Nat) : Bool :=
+  match find c.assets id with
+  | none => true
+  | some a => a.ts != ts
+
+/-- `some (ts, data)` if `op` is an `Insert` of asset `id` that stores its payload: it is accepted and
+    the asset is absent or cached with a different timestamp (otherwise the cached data is kept). -/
+def storesFor (c : Cache) (op : Op) (id : Nat) : Option (Nat × Nat) :=
+  match op with
+  | .insert m id' ts d sz =>
+    if id' = id ∧ (insert c m id' ts d sz).2 = true ∧ isNewVersion c id' ts = true then some (ts, d) else none
+  | _ => none
+
+theorem storesFor_insert_some {c : Cache} {m id' ts d sz id t dd : Nat} :
+    storesFor c (.insert m id' ts d sz) id = some (t, dd) ↔
+      (id' = id ∧ (insert c m id' ts d sz).2 = true ∧ isNewVersion c id' ts = true) ∧ ts = t ∧ d = dd := by
+  simp only [storesFor]
+  by_cases hc : id' = id ∧ (insert c m id' ts d sz).2 = true ∧ isNewVersion c id' ts = true
+  · rw [if_pos hc]
+    obtain ⟨h1, h2, h3⟩ := hc
+    subst h1; simp [h2, h3]
+  · rw [if_neg hc]; simp [hc]
+
+theorem storesFor_insert_none {c : Cache} {m id' ts d sz id : Nat} :
+    storesFor c (.insert m id' ts d sz) id = none ↔
+      ¬ (id' = id ∧ (insert c m id' ts d sz).2 = true ∧ isNewVersion c id' ts = true) := by
+  simp only [storesFor]
+  by_cases hc : id' = id ∧ (insert c m id' ts d sz).2 = true ∧ isNewVersion c id' ts = true
+  · rw [if_pos hc]
+    obtain ⟨h1, h2, h3⟩ := hc
+    subst h1; simp [h2, h3]
+  · rw [if_neg hc]; simp [hc]
+
+/-- the `(timestamp, data)` stored by the most recent storing insert of `id` in the history `ops`
+    executed from state `c` (the suffix is searched first). -/
+def lastStore (c : Cache) : List Op → Nat → Option (Nat × Nat)
+  | [], _ => none
+  | op :: rest, id =>
+    match lastStore (step c op).1 rest id with
+    | some x => some x
+    | none => storesFor c op id
+
+theorem step_stores {c : Cache} {op : Op} {id ts d : Nat} (h : storesFor c op id = some (ts, d)) :
+    ∃ a', find (step c op).1.assets id = some a' ∧ a'.ts = ts ∧ a'.data = d := by
+  cases op with
+  | insert m id' ts' d' sz =>
+    obtain ⟨⟨hid, hacc, hnew⟩, rfl, rfl⟩ := storesFor_insert_some.mp h
+    subst hid
+    show ∃ a', find (insert c m id' ts' d' sz).1.assets id' = some a' ∧ _
+    unfold isNewVersion at hnew
+    unfold insert at hacc ⊢
+    cases hf : find c.assets id' with
+    | none =>
+      rw [hf] at hacc; simp only [] at hacc ⊢
+      by_cases hcap : wadd c.size sz > c.capacity
+      · simp [hcap] at hacc
+      · simp only [hcap, if_false]
+        refine ⟨{ id := id', ts := ts', insertNum := c.insertNum, access := 0, size := sz, data := d', refs := [m] },
+          ?_, rfl, rfl⟩
+        show find (c.assets ++ [_]) id' = _
+        rw [find_append_single, hf]; simp
+    | some a =>
+      rw [hf] at hacc hnew; simp only [] at hacc hnew ⊢
+      have hts : ¬ a.ts = ts' := by simpa using hnew
+      by_cases hcap : wadd (wsub c.size a.size) sz > c.capacity
+      · simp [hcap] at hacc
+      · simp only [hcap, if_false, hts]
+        refine ⟨{ a with refs := setInsert m a.refs, ts := ts', size := sz, data := d' }, ?_, rfl, rfl⟩
+        show find (amap c.assets id' _) id' = _
+        rw [find_amap]
+        · simp [hf]
+        · intro _; rfl
+  | _ => simp [storesFor] at h
+
+theorem step_keeps {c : Cache} {op : Op} {id : Nat} (h : storesFor c op id = none) {a' : Asset}
+    (hf' : find (step c op).1.assets id = some a') :
+    ∃ a, find c.assets id = some a ∧ a.ts = a'.ts ∧ a.data = a'.data := by
+  cases op with
+  | insert m id' ts d sz =>
+    have h := storesFor_insert_none.mp h
+    have hf2 : find (insert c m id' ts d sz).1.assets id = some a' := hf'
+    unfold isNewVersion at h
+    unfold insert at h hf2
+    cases hf : find c.assets id' with
+    | none =>
+      rw [hf] at h hf2; simp only [] at h hf2
+      by_cases hcap : wadd c.size sz > c.capacity
+      · simp only [hcap, if_true] at hf2
+        exact ⟨a', hf2, rfl, rfl⟩
+      · simp only [hcap, if_false] at hf2 h
+        have hne : ¬ id' = id := by
+          intro e; simp [e] at h
+        have hf3 : find (c.assets ++ [_]) id = some a' := hf2
+        rw [find_append_single] at hf3
+        cases hfi : find c.assets id with
+        | none => rw [hfi] at hf3; simp [hne] at hf3
+        | some x => rw [hfi] at hf3; simp at hf3; subst hf3; exact ⟨x, rfl, rfl, rfl⟩
+    | some a =>
+      rw [hf] at h hf2; simp only [] at h hf2
+      by_cases hcap : wadd (wsub c.size a.size) sz > c.capacity
+      · simp only [hcap, if_true] at hf2
+        exact ⟨a', hf2, rfl, rfl⟩
+      · simp only [hcap, if_false] at hf2 h
+        by_cases hts : a.ts = ts
+        · simp only [hts, if_true] at hf2
+          exact keeps_amap c { c with assets := amap c.assets id' (fun x => { x with refs := setInsert m x.refs }) }
+            id' _ rfl (fun _ => rfl) (fun _ => rfl) (fun _ => rfl) id a' hf2
+        · simp only [hts, if_false] at hf2
+          have hne : ¬ id' = id := by
+            intro e; simp [e, hts] at h
+          have hf3 : find (amap c.assets id' (fun x =>
+            { x with refs := setInsert m x.refs, ts := ts, size := sz, data := d })) id = some a' := hf2
+          rw [find_amap] at hf3
+          · have : ¬ id = id' := fun e => hne e.symm
+            simp only [this, if_false] at hf3
+            exact ⟨a', hf3, rfl, rfl⟩
+          · intro _; rfl
+  | populate id' rts =>
+    have hf2 : find (populate c id' rts).1.assets id = some a' := hf'
+    unfold populate at hf2
+    cases hf : find c.assets id' with
+    | none => rw [hf] at hf2; exact ⟨a', hf2, rfl, rfl⟩
+    | some a =>
+      rw [hf] at hf2; simp only [] at hf2
+      by_cases hm : isModified rts a.ts = true
+      · simp only [hm, if_true] at hf2; exact ⟨a', hf2, rfl, rfl⟩
+      · simp only [hm] at hf2
+        exact keeps_amap c { c with assets := amap c.assets id' (fun x => { x with access := x.access + 1 }) }
+          id' _ rfl (fun _ => rfl) (fun _ => rfl) (fun _ => rfl) id a' hf2
+  | hasAsset id' => exact ⟨a', hf', rfl, rfl⟩
+  | deleteAsset id' =>
+    have hf2 : find (deleteAsset c id').assets id = some a' := hf'
+    unfold deleteAsset at hf2
+    cases hf : find c.assets id' with
+    | none => rw [hf] at hf2; exact ⟨a', hf2, rfl, rfl⟩
+    | some a => rw [hf] at hf2; exact keeps_deleteCore c a none id a' hf2
+  | removeModel m =>
+    have hf2 : find ((msGet c.models m).foldl (removeRefStep m) c).assets id = some a' := hf'
+    exact keeps_foldl _ (keeps_removeRefStep m) _ c id a' hf2
+  | resetModel m =>
+    have hf2 : find ((msGet c.models m).foldl (resetStep m) c).assets id = some a' := hf'
+    exact keeps_foldl _ (keeps_resetStep m) _ c id a' hf2
+  | resetAll =>
+    have hf2 : find ([] : List Asset) id = some a' := hf'
+    simp [find_nil] at hf2
+  | setCapacity n =>
+    have hf2 : find (trimN c.assets.length { c with capacity := n }).assets id = some a' := hf'
+    exact keeps_trimN _ { c with capacity := n } id a' hf2
+
+/-- the cached `(timestamp, data)` of every held asset is the one stored by the most recent storing
+    insert of the history (or the initial one if the history has no storing insert for it). -/
+theorem find_lastStore : ∀ (ops : List Op) (c : Cache) (id : Nat) (a : Asset),
+    find (run c ops).assets id = some a →
+      lastStore c ops id = some (a.ts, a.data) ∨
+      (lastStore c ops id = none ∧ ∃ a0, find c.assets id = some a0 ∧ a0.ts = a.ts ∧ a0.data = a.data) := by
+  intro ops
+  induction ops with
+  | nil => intro c id a h; exact Or.inr ⟨rfl, a, h, rfl, rfl⟩
+  | cons op rest ih =>
+    intro c id a h
+    have h' : find (run (step c op).1 rest).assets id = some a := h
+    simp only [lastStore]
+    rcases ih _ id a h' with h1 | ⟨h1, a0, ha0, e1, e2⟩
+    · rw [h1]; exact Or.inl rfl
+    · rw [h1]
+      cases hs : storesFor c op id with
+      | some p =>
+        obtain ⟨ts, d⟩ := p
+        obtain ⟨a1, ha1, e3, e4⟩ := step_stores hs
+        rw [ha0] at ha1; cases ha1
+        left; simp [← e1, ← e2, e3, e4]
+      | none =>
+        obtain ⟨a1, ha1, e3, e4⟩ := step_keeps hs ha0
+        exact Or.inr ⟨rfl, a1, ha1, e3.trans e1, e4.trans e2⟩
+
+theorem lastStore_mem : ∀ (ops : List Op) (c : Cache) (id ts d : Nat), lastStore c ops id = some (ts, d) →
+    ∃ m sz, Op.insert m id ts d sz ∈ ops := by
+  intro ops
+  induction ops with
+  | nil => intro c id ts d h; simp [lastStore] at h
+  | cons op rest ih =>
+    intro c id ts d h
+    simp only [lastStore] at h
+    cases hl : lastStore (step c op).1 rest id with
+    | some x =>
+      rw [hl] at h; simp at h; subst h
+      obtain ⟨m, sz, hm⟩ := ih _ id ts d hl
+      exact ⟨m, sz, List.mem_cons_of_mem _ hm⟩
+    | none =>
+      rw [hl] at h; simp only [] at h
+      cases op with
+      | insert m id' ts' d' sz =>
+        obtain ⟨⟨hid, _, _⟩, rfl, rfl⟩ := storesFor_insert_some.mp h
+        exact ⟨m, sz, by rw [hid]; simp⟩
+      | _ => simp [storesFor] at h
+
+theorem populate_hit {c : Cache} {id : Nat} {rts : Option Nat} {d : Nat} :
+    (populate c id rts).2 = some d ↔ ∃ a, find c.assets id = some a ∧ rts = some a.ts ∧ d = a.data := by
+  unfold populate
+  cases hf : find c.assets id with
+  | none => simp
+  | some a =>
+    simp only []
+    cases rts with
+    | none => simp [isModified]
+    | some r =>
+      by_cases hr : r = a.ts
+      · subst hr; simp [isModified, eq_comm]
+      · simp [isModified, hr]
+
+/-! ### eviction order -/
+
+theorem inj_of_nodup_map {α β : Type} (f : α → β) : ∀ {l : List α}, (l.map f).Nodup →
+    ∀ {a b : α}, a ∈ l → b ∈ l → f a = f b → a = b := by
+  intro l
+  induction l with
+  | nil => intro _ a b ha; simp at ha
+  | cons x xs ih =>
+    intro hnd a b ha hb hab
+    simp only [List.map_cons, List.nodup_cons] at hnd
+    rcases List.mem_cons.mp ha with rfl | ha' <;> rcases List.mem_cons.mp hb with rfl | hb'
+    · rfl
+    · exact absurd (hab ▸ List.mem_map_of_mem hb') hnd.1
+    · exact absurd (hab ▸ List.mem_map_of_mem ha') hnd.1
+    · exact ih hnd.2 ha' hb' hab
+
+theorem trimN_capacity : ∀ (fuel : Nat) (c : Cache), (trimN fuel c).capacity = c.capacity := by
+  intro fuel
+  induction fuel with
+  | zero => intro c; simp only [trimN]; split <;> rfl
+  | succ n ih =>
+    intro c; simp only [trimN]
+    split
+    · cases minAsset c.assets with
+      | none => rfl
+      | some a => simp only []; rw [ih]; rfl
+    · rfl
+
+theorem trimN_subset : ∀ (fuel : Nat) (c : Cache) (b : Asset), b ∈ (trimN fuel c).assets → b ∈ c.assets := by
+  intro fuel
+  induction fuel with
+  | zero => intro c b; simp only [trimN]; split <;> exact id
+  | succ n ih =>
+    intro c b; simp only [trimN]
+    split
+    · cases minAsset c.assets with
+      | none => exact id
+      | some a =>
+        intro hb
+        have : b ∈ aerase c.assets a.id := ih _ b hb
+        exact (mem_aerase.mp this).1
+    · exact id
+
+theorem trimN_of_le (fuel : Nat) {c : Cache} (h : c.size ≤ c.capacity) : trimN fuel c = c := by
+  have : ¬ c.size > c.capacity := by omega
+  cases fuel <;> simp [trimN, this]
+
+/-- `Trim` evicts a prefix of the `(access count, insertion number)` order: every evicted asset
+    precedes every surviving one. -/
+theorem trimN_evicts_min : ∀ (fuel : Nat) (c : Cache), Wf c →
+    ∀ a ∈ c.assets, a ∉ (trimN fuel c).assets → ∀ b ∈ (trimN fuel c).assets, keyLt a b = true := by
+  intro fuel
+  induction fuel with
+  | zero =>
+    intro c _ a ha hna
+    have : (trimN 0 c).assets = c.assets := by simp only [trimN]; split <;> rfl
+    rw [this] at hna; exact absurd ha hna
+  | succ n ih =>
+    intro c hwf a ha hna b hb
+    simp only [trimN] at hna hb
+    by_cases hgt : c.size > c.capacity
+    · simp only [hgt, if_true] at hna hb
+      cases hmin : minAsset c.assets with
+      | none => rw [hmin] at hna; exact absurd ha hna
+      | some a0 =>
+        rw [hmin] at hna hb; simp only [] at hna hb
+        have ha0 : a0 ∈ c.assets := minAsset_mem hmin
+        have hf0 : find c.assets a0.id = some a0 := find_mem hwf.base.ids_nodup ha0
+        have hwf1 := wf_deleteCore_none hwf hf0
+        have hb1 : b ∈ aerase c.assets a0.id := trimN_subset n _ b hb
+        by_cases haa : a = a0
+        · subst haa
+          have hbc := (mem_aerase.mp hb1).1
+          have hne : a.insertNum ≠ b.insertNum := by
+            intro e
+            have := inj_of_nodup_map (·.insertNum) hwf.base.nums_nodup ha hbc e
+            exact (mem_aerase.mp hb1).2 (this ▸ rfl)
+          exact keyLt_of_not (minAsset_le hmin b hbc) hne
+        · have hid : a.id ≠ a0.id := by
+            intro e
+            exact haa (inj_of_nodup_map (·.id) hwf.base.ids_nodup ha ha0 e)
+          have ha1 : a ∈ (deleteCore c a0 none).assets := mem_aerase.mpr ⟨ha, hid⟩
+          exact ih _ hwf1 a ha1 hna b hb
+    · simp only [hgt, if_false] at hna
+      exact absurd ha hna
+
+/-- `Trim` stops as soon as the size fits: the evicted asset with the greatest key was still needed. -/
+theorem trimN_stops_early : ∀ (fuel : Nat) (c : Cache), Wf c → c.assets.length ≤ fuel →
+    ∀ a ∈ c.assets, a ∉ (trimN fuel c).assets →
+      (∀ b ∈ c.assets, b ∉ (trimN fuel c).assets → ¬ keyLt a b = true) →
+      (trimN fuel c).size + a.size > c.capacity := by
+  intro fuel
+  induction fuel with
+  | zero =>
+    intro c _ hlen a ha
+    have : c.assets = [] := List.eq_nil_of_length_eq_zero (by omega)
+    rw [this] at ha; simp at ha
+  | succ n ih =>
+    intro c hwf hlen a ha hna hmax
+    by_cases hgt : c.size > c.capacity
+    · cases hmin : minAsset c.assets with
+      | none =>
+        have he := minAsset_none.mp hmin
+        rw [he] at ha; simp at ha
+      | some a0 =>
+        have hunf : trimN (n + 1) c = trimN n (deleteCore c a0 none) := by
+          simp only [trimN, hgt, if_true, hmin]
+        rw [hunf] at hna hmax ⊢
+        have ha0 : a0 ∈ c.assets := minAsset_mem hmin
+        have hf0 : find c.assets a0.id = some a0 := find_mem hwf.base.ids_nodup ha0
+        have hwf1 := wf_deleteCore_none hwf hf0
+        have hsz := deleteCore_size hwf.base hf0 none
+        have hlen1 : (deleteCore c a0 none).assets.length ≤ n := by
+          have := length_aerase_lt hf0
+          show (aerase c.assets a0.id).length ≤ n
+          omega
+        have hcap1 : (deleteCore c a0 none).capacity = c.capacity := rfl
+        have ha0out : a0 ∉ (trimN n (deleteCore c a0 none)).assets := by
+          intro hin
+          have := trimN_subset n _ a0 hin
+          exact (mem_aerase.mp this).2 rfl
+        by_cases hle1 : (deleteCore c a0 none).size ≤ (deleteCore c a0 none).capacity
+        · rw [trimN_of_le n hle1] at hna ⊢
+          have : a = a0 := by
+            by_cases hid : a.id = a0.id
+            · exact inj_of_nodup_map (·.id) hwf.base.ids_nodup ha ha0 hid
+            · exact absurd (mem_aerase.mpr ⟨ha, hid⟩) hna
+          subst this; omega
+        · by_cases haa : a = a0
+          · subst haa
+            exfalso
+            -- the queue head of the next iteration is evicted too and has a greater key
+            have hgt1 : (deleteCore c a none).size > (deleteCore c a none).capacity := by omega
+            cases hmin1 : minAsset (deleteCore c a none).assets with
+            | none =>
+              have he := minAsset_none.mp hmin1
+              have : (deleteCore c a none).size = 0 := by rw [hwf1.base.size_eq, he]; rfl
+              omega
+            | some a1 =>
+              have ha1 : a1 ∈ (deleteCore c a none).assets := minAsset_mem hmin1
+              have ha1c : a1 ∈ c.assets := (mem_aerase.mp ha1).1
+              have hf1 : find (deleteCore c a none).assets a1.id = some a1 := find_mem hwf1.base.ids_nodup ha1
+              have ha1out : a1 ∉ (trimN n (deleteCore c a none)).assets := by
+                cases n with
+                | zero =>
+                  have : (deleteCore c a none).assets = [] := List.eq_nil_of_length_eq_zero (by omega)
+                  rw [this] at ha1; simp at ha1
+                | succ k =>
+                  have : trimN (k + 1) (deleteCore c a none) = trimN k (deleteCore (deleteCore c a none) a1 none) := by
+                    simp only [trimN, hgt1, if_true, hmin1]
+                  rw [this]
+                  intro hin
+                  have := trimN_subset k _ a1 hin
+                  exact (mem_aerase.mp this).2 rfl
+              have hne : a.insertNum ≠ a1.insertNum := by
+                intro e
+                have := inj_of_nodup_map (·.insertNum) hwf.base.nums_nodup ha ha1c e
+                exact (mem_aerase.mp ha1).2 (this ▸ rfl)
+              exact hmax a1 ha1c ha1out (keyLt_of_not (minAsset_le hmin a1 ha1c) hne)
+          · have hid : a.id ≠ a0.id := by
+              intro e
+              exact haa (inj_of_nodup_map (·.id) hwf.base.ids_nodup ha ha0 e)
+            have ha1 : a ∈ (deleteCore c a0 none).assets := mem_aerase.mpr ⟨ha, hid⟩
+            have := ih _ hwf1 hlen1 a ha1 hna (fun b hb hbo => hmax b (mem_aerase.mp hb).1 hbo)
+            rw [hcap1] at this; exact this
+    · have hle : c.size ≤ c.capacity := by omega
+      rw [trimN_of_le _ hle] at hna
+      exact absurd ha hna
+
+/-! ### RemoveModel: which assets survive -/
+
+theorem removeRefStep_find_other {m : Nat} {c : Cache} {id0 id : Nat} (hne : id ≠ id0) :
+    find (removeRefStep m c id0).assets id = find c.assets id := by
+  cases hf : find c.assets id0 with
+  | none =>
+    have : removeRefStep m c id0 = { c with ub := true } := by unfold removeRefStep; rw [hf]
+    rw [this]
+  | some a =>
+    have haid : a.id = id0 := (find_some hf).2
+    rw [removeRefStep_eq hf]
+    have h1 : find (amap c.assets id0 (fun x => { x with refs := setErase m x.refs })) id = find c.assets id := by
+      rw [find_amap]
+      · simp [hne]
+      · intro _; rfl
+    split
+    · show find (aerase (amap c.assets id0 _) a.id) id = _
+      rw [find_aerase, haid]; simp only [hne, if_false]; exact h1
+    · exact h1
+
+/-- what `RemoveModel(m)` leaves of an asset `a`. -/
+def afterRemove (m : Nat) (a : Asset) : Option Asset :=
+  if m ∈ a.refs then
+    (if (setErase m a.refs).isEmpty then none else some { a with refs := setErase m a.refs })
+  else some a
+
+theorem removeRefStep_find_self {m : Nat} {c : Cache} {id : Nat} {a : Asset} (hf : find c.assets id = some a)
+    (hm : m ∈ a.refs) : find (removeRefStep m c id).assets id = afterRemove m a := by
+  have haid : a.id = id := (find_some hf).2
+  rw [removeRefStep_eq hf]
+  unfold afterRemove
+  simp only [hm, if_true]
+  have h1 : find (amap c.assets id (fun x => { x with refs := setErase m x.refs })) id =
+      some { a with refs := setErase m a.refs } := by
+    rw [find_amap]
+    · simp [hf]
+    · intro _; rfl
+  by_cases hemp : (setErase m a.refs).isEmpty = true
+  · simp only [hemp, if_true]
+    show find (aerase (amap c.assets id _) a.id) id = none
+    rw [find_aerase, haid]; simp
+  · simp only [hemp]
+    exact h1
+
+theorem removeLoop_find {m id : Nat} {a : Asset} : ∀ (pending : List Nat) (c : Cache), pending.Nodup →
+    ((id ∈ pending ∧ m ∈ a.refs ∧ find c.assets id = some a) ∨ (id ∉ pending ∧ find c.assets id = afterRemove m a)) →
+    find (pending.foldl (removeRefStep m) c).assets id = afterRemove m a := by
+  intro pending
+  induction pending with
+  | nil =>
+    intro c _ h
+    rcases h with ⟨hin, _⟩ | ⟨_, h⟩
+    · simp at hin
+    · exact h
+  | cons id0 rest ih =>
+    intro c hnd h
+    have hnd' := List.nodup_cons.mp hnd
+    apply ih _ hnd'.2
+    by_cases hid : id = id0
+    · subst hid
+      rcases h with ⟨_, hm, hf⟩ | ⟨hnin, _⟩
+      · exact Or.inr ⟨hnd'.1, removeRefStep_find_self hf hm⟩
+      · simp at hnin
+    · rw [removeRefStep_find_other hid]
+      rcases h with ⟨hin, hm, hf⟩ | ⟨hnin, hf⟩
+      · left
+        refine ⟨?_, hm, hf⟩
+        rcases List.mem_cons.mp hin with e | e
+        · exact absurd e hid
+        · exact e
+      · right
+        exact ⟨fun e => hnin (List.mem_cons_of_mem _ e), hf⟩
+
+theorem removeModel_find {c : Cache} (h : Inv c) (m id : Nat) {a : Asset} (hf : find c.assets id = some a) :
+    find (removeModel c m).assets id = afterRemove m a := by
+  show find ((msGet c.models m).foldl (removeRefStep m) c).assets id = _
+  apply removeLoop_find _ _ (h.wf.base.sets_nodup m)
+  by_cases hm : m ∈ a.refs
+  · exact Or.inl ⟨(h.wf.cons m id).mpr ⟨a, hf, hm⟩, hm, hf⟩
+  · right
+    refine ⟨?_, ?_⟩
+    · intro hin
+      obtain ⟨a0, ha0, hm0⟩ := (h.wf.cons m id).mp hin
+      rw [hf] at ha0; cases ha0; exact hm hm0
+    · rw [hf]; unfold afterRemove; simp [hm]
 
 end MjProof.Cache
